@@ -36,6 +36,15 @@ impl Drop for TEl {
     }
 }
 
+impl std::fmt::Debug for TEl {
+    fn fmt(&self, f: &mut std::fmt::Formatter<'_>) -> std::fmt::Result {
+        if !env::reg_is_live(self.serial) {
+            env::error(format!("Debug formatting reached table element #{} which is not live", self.serial));
+        }
+        write!(f, "E#{}", self.id)
+    }
+}
+
 pub fn hasher(e: &TEl) -> u64 {
     env::tick(Class::Hash);
     plan_hash(e.id)
@@ -253,6 +262,25 @@ impl TabSut {
                     if it.next().is_none() {
                         break;
                     }
+                }
+            }
+            // a clone taken after j items continues from the same position (so does what Debug prints)
+            for j in 0..=seen.len() {
+                let mut it = self.table.iter_hash(h);
+                for _ in 0..j {
+                    it.next();
+                }
+                let cl = it.clone();
+                let text = format!("{:?}", it);
+                let mut a: Vec<u32> = it.map(|e| e.tok).collect();
+                let mut b: Vec<u32> = cl.map(|e| e.tok).collect();
+                a.sort_unstable();
+                b.sort_unstable();
+                if a != b || a.len() != seen.len() - j {
+                    return Err(format!("iter_hash({h:#x}): after {j} of {} items the iterator yields {} more, its clone {}", seen.len(), a.len(), b.len()));
+                }
+                if text.matches("E#").count() != seen.len() - j {
+                    return Err(format!("iter_hash({h:#x}): Debug after {j} of {} items lists {} elements: {text}", seen.len(), text.matches("E#").count()));
                 }
             }
             // internal iteration must visit the same elements
